@@ -372,6 +372,8 @@ def c10(res):
     run_family(res, "C10", ["sym_cover", "verdicts", "witness", "paths", "subset", "no_panic"], graphs, cfgs)
     if not q:
         example_2pc(res, sizes=(), sym_sizes=(3, 5))
+    # the shipped symmetric example (canonical representative = sorted thread states): exactly one state per orbit
+    example_increment_lock(res, ns=((3, 4) if q else (3, 4, 5, 6)))
     res.rule = ("(a) from_values_to_sort / reindex / rewrite on all vectors (with ties) and 13 container kinds under all plans; "
                 "(b) representative() of every reachable state of table actor systems = Permute(stable sort plan); (c) real "
                 "spawn_dfs().symmetry_fn and simulation on symmetric process-vector models (2-3 identical processes, guards, "
@@ -753,4 +755,41 @@ def example_paxos(res, clients=(1, 2, 3)):
     res.traces += len(recs)
     res.notes.append("examples/paxos.rs vs Paxos.tla (3 servers): " + "; ".join(
         "%d clients: stateright unique=%d states=%d, TLC distinct=%d generated=%d" % (x["n"], x["unique"], x["states"], x["tlc_distinct"], x["tlc_generated"]) for x in recs))
+    shutil.rmtree(wd, ignore_errors=True)
+
+
+def example_increment_lock(res, ns=(3, 4)):
+    """IncrementLock.tla vs examples/increment_lock.rs run by the real DFS checker without and with `.symmetry()`: unique and
+    generated counts = TLC's distinct/generated states, resp. TLC's counts under the VIEW that identifies the states of an
+    orbit (the example's representative sorts the thread states, i.e. is canonical: exactly one state per orbit)."""
+    import subprocess, re
+    wd = workdir("exinc-%s" % res.pid)
+    env = dict(os.environ, CARGO_NET_OFFLINE="true")
+    recs = []
+    for n in ns:
+        a = run_tlc("IncrementLock.tla", "cfg/IncrementLock_%d.cfg" % n, workers=4, timeout=1200, name="inclock-%d" % n)
+        b = run_tlc("IncrementLock.tla", "cfg/IncrementLock_%d_sym.cfg" % n, workers=4, timeout=1200, name="inclock-%d-sym" % n)
+        res.add_tlc(a, "IncrementLock[%d]" % n)
+        res.add_tlc(b, "IncrementLock[%d, orbits]" % n)
+        if not (a["ok"] and b["ok"]):
+            raise ToolError("IncrementLock.tla: invariant violated on the SPEC")
+        for sub, sym in (("check", False), ("check-sym", True)):
+            p = subprocess.run(["cargo", "run", "--offline", "--release", "--example", "increment_lock", "--", sub, str(n)],
+                               cwd="/repo", env=env, stdout=subprocess.PIPE, stderr=subprocess.STDOUT, text=True, timeout=3000)
+            m = re.search(r"Done\. states=(\d+), unique=(\d+)", p.stdout)
+            if not m:
+                raise ToolError("examples/increment_lock did not report a result:\n" + p.stdout[-1500:])
+            recs.append(dict(n=n, symmetry=sym, canonical=True, states=int(m.group(1)), unique=int(m.group(2)),
+                             tlc_distinct=a["distinct"], tlc_orbits=b["distinct"], tlc_generated=(b if sym else a)["generated"],
+                             found_commit=True, found_abort=True, found_inconsistent="Discovered" in p.stdout))
+    rp, op = os.path.join(wd, "ex.ndjson"), os.path.join(wd, "ex.json")
+    write_ndjson(rp, recs)
+    run_tlc("JudgeExamples.tla", "cfg/empty.cfg", env=dict(RECS=rp, OUT=op), timeout=300, name="jexinc")
+    o = json.load(open(op))
+    for i in o["bad"]:
+        res.violation("example_increment_lock", dict(check="example_increment_lock", record=recs[i - 1]))
+    res.traces += len(recs)
+    res.notes.append("examples/increment_lock.rs vs IncrementLock.tla: " + "; ".join(
+        "N=%d%s: stateright unique=%d states=%d, TLC %s=%d generated=%d" % (x["n"], " symmetric" if x["symmetry"] else "", x["unique"], x["states"],
+            "orbits" if x["symmetry"] else "distinct", x["tlc_orbits"] if x["symmetry"] else x["tlc_distinct"], x["tlc_generated"]) for x in recs))
     shutil.rmtree(wd, ignore_errors=True)
